@@ -200,6 +200,44 @@ pub fn run(rep: &'static Report) {
     });
     rep.extra("key_strings", json!(strs.len()));
     rep.sample(json!({"kind":"string","s":"<valid 112-char string with char 57 replaced by '='>","expect":"rejected, no panic"}));
+    // CLI level: a key locked (REF) under w must be opened by `kestrel key extract-pub --env-pass` under w' iff w' == w
+    {
+        use crate::proc::{self, Cmd, Scratch};
+        let w = crate::c02::cli_passwords();
+        let sk = keys[0];
+        let want_pub = format!("PublicKey = {}", r::encode_pk(&r::x25519_base(&sk)));
+        let locked: Vec<String> = w.par_iter().map(|(_, pw)| r::b64(&r::lock_key(&sk, pw.as_bytes(), &salts[0]))).collect();
+        let mut jobs = vec![];
+        for i in 0..w.len() {
+            for j in 0..w.len() {
+                jobs.push((i, j));
+            }
+        }
+        jobs.par_iter().for_each(|&(i, j)| {
+            rep.eval(1);
+            rep.nontrivial(format!("cli-extract-{}-{}", i, j).as_bytes());
+            let attempt = || -> Result<(), String> {
+                let sc = Scratch::new();
+                let out = proc::run(&Cmd::new(&["key", "extract-pub", &locked[i], "--env-pass"]).env("KESTREL_PASSWORD", w[j].1), &sc.0);
+                out.well_behaved()?;
+                if i == j {
+                    if !out.ok() || String::from_utf8_lossy(&out.stdout).trim() != want_pub {
+                        return Err(format!("CLI: key locked under '{}' is not opened by the same password: {}", w[i].0, out.summary()));
+                    }
+                } else if out.ok() {
+                    return Err(format!("CLI: key locked under password '{}' is opened by the different password '{}'", w[i].0, w[j].0));
+                }
+                Ok(())
+            };
+            if attempt().is_err() {
+                if let Err(e) = attempt() {
+                    rep.violation(if i == j { "cli/same-password-fails" } else { "cli/other-password-accepted" }, json!({"kind":"cli-extract","locked":locked[i],"wn":w[i].0,"w2n":w[j].0,"w2":w[j].1}), e);
+                }
+            }
+        });
+        rep.extra("cli_extract_pub_pairs", json!(jobs.len()));
+        rep.sample(json!({"kind":"cli-extract","locked_under":"a\\n","KESTREL_PASSWORD":"a","expect":"exit 1"}));
+    }
     rep.set_exhaustive(true);
 }
 
@@ -211,6 +249,14 @@ pub fn replay(rep: &'static Report, case: &Value) {
         "other-pw" => other_pw_case(rep, &a32("sk"), case["wn"].as_str().unwrap(), &g("w"), case["w2n"].as_str().unwrap(), &g("w2"), case["locked"].as_str().unwrap()),
         "flip" => flip_case(rep, &a32("sk"), &g("pw"), &g("blob"), case["bit"].as_u64().unwrap() as usize),
         "string" => string_case(rep, case["s"].as_str().unwrap(), &g("pw"), case["orig"].as_str().unwrap(), &a32("sk")),
+        "cli-extract" => {
+            let sc = crate::proc::Scratch::new();
+            let out = crate::proc::run(&crate::proc::Cmd::new(&["key", "extract-pub", case["locked"].as_str().unwrap(), "--env-pass"]).env("KESTREL_PASSWORD", case["w2"].as_str().unwrap()), &sc.0);
+            println!("  observed: {}", out.summary());
+            if out.ok() != (case["wn"] == case["w2n"]) {
+                rep.violation("cli/replay", case.clone(), out.summary());
+            }
+        }
         k => crate::report::machinery(&format!("unknown replay kind {}", k)),
     }
 }
